@@ -1,3 +1,4 @@
+import Secp.Proofs.DriversMisc
 import Secp.Proofs.PrivKey
 /-
   Props/C19 — generated and parsed private keys are always in range and unbiased.
@@ -52,5 +53,28 @@ theorem zero_spec (k : Nat) : privKeyZero k = 0 := rfl
 example : generatePrivateKey ⟨List.replicate 32 0 ++ (List.replicate 31 0 ++ [1]), .eof⟩ = (.ok 1, 64) := by
   decide
 example : generatePrivateKey ⟨List.replicate 33 0, .eof⟩ = (.error .unexpectedEOF, 33) := by decide
+
+/-! ### Regenerated drivers (tools/gotr pass T8)
+
+`Secp.Gen.Drivers` is REGENERATED from /repo on every check run: the Go functions below translated
+statement by statement into Lean terms over the value-level primitives.  The theorems say the
+regenerated definitions EQUAL the hand-written models the theorems above are about, so a change to
+one of these functions either leaves the equality provable (then the property theorems still speak
+about the code) or breaks this file.  `DR` = ok | err | panic | fuel (retry loop out of fuel) |
+undef (an arithmetic assumption of the translation failed; shown never to occur). -/
+
+/-- `generatePrivateKey` (privkey.go) regenerated: same result as the model for EVERY reader, and the reader is
+    left exactly as many bytes shorter as the model says were consumed -/
+theorem generatePrivateKey_regenerated (rd : Reader) :
+    (Secp.Gen.Drivers.generatePrivateKey rd).1
+        = (match (Secp.Model.generatePrivateKey rd).1 with | .ok k => DR.ok k | .error e => DR.err e)
+      ∧ rd.data.length - (Secp.Gen.Drivers.generatePrivateKey rd).2.data.length
+        = (Secp.Model.generatePrivateKey rd).2 :=
+  Secp.Proofs.DriversMisc.generatePrivateKey_regenerated rd
+
+/-- `PrivKeyFromBytes` regenerated -/
+theorem privKeyFromBytes_regenerated (b : Bytes) :
+    Secp.Gen.Drivers.privKeyFromBytes b = Secp.Model.privKeyFromBytes b :=
+  Secp.Proofs.DriversMisc.privKeyFromBytes_regenerated b
 
 end Secp.Props.C19
